@@ -7,6 +7,7 @@
 
 mod cw;
 mod drivers;
+mod gen;
 mod jv;
 mod obs;
 mod ops;
